@@ -110,6 +110,79 @@ def lemma_obligations(sp):
     return obs
 
 
+MUTATING_METHODS = ("append", "extend", "pop", "insert", "remove", "clear", "sort", "reverse", "update", "add", "discard", "setdefault", "popitem")
+
+
+def effect_scan(relpath, cls, fnode, guard_name, registry, seen=None):
+    """stores to fields of `self` (assignment, augmented assignment, subscript store, mutating method call on a field,
+    setattr) that are NOT inside an `if <guard_name>:` block; followed transitively through self.<method>(...) calls
+    (methods resolved along the class's MRO).  Returns [(relpath, lineno, description)]."""
+    seen = seen if seen is not None else set()
+    key = (relpath, fnode.name, fnode.lineno)
+    if key in seen:
+        return []
+    seen.add(key)
+    found = []
+
+    def visit(stmts, guarded):
+        for st_ in stmts:
+            if isinstance(st_, ast.If) and isinstance(st_.test, ast.Name) and st_.test.id == guard_name:
+                visit(st_.body, True)
+                visit(st_.orelse, guarded)
+                continue
+            if isinstance(st_, (ast.FunctionDef, ast.ClassDef)):
+                continue
+            for n in ast.walk(st_) if not isinstance(st_, (ast.If, ast.For, ast.While, ast.With, ast.Try)) else [st_]:
+                pass
+            # compound statements: recurse into blocks, examine headers
+            if isinstance(st_, (ast.If, ast.For, ast.While, ast.With, ast.Try)):
+                headers = []
+                if isinstance(st_, ast.If):
+                    headers = [st_.test]
+                elif isinstance(st_, ast.For):
+                    headers = [st_.iter, st_.target]
+                elif isinstance(st_, ast.While):
+                    headers = [st_.test]
+                for h in headers:
+                    examine(h, guarded)
+                for blk in ("body", "orelse", "finalbody"):
+                    visit(getattr(st_, blk, []) or [], guarded)
+                for hnd in getattr(st_, "handlers", []) or []:
+                    visit(hnd.body, guarded)
+            else:
+                examine(st_, guarded)
+
+    def is_self_field(n):
+        while isinstance(n, ast.Subscript):
+            n = n.value
+        return isinstance(n, ast.Attribute) and isinstance(n.value, ast.Name) and n.value.id == "self"
+
+    def examine(node, guarded):
+        for n in ast.walk(node):
+            if isinstance(n, (ast.Assign, ast.AugAssign, ast.AnnAssign)):
+                tgts = n.targets if isinstance(n, ast.Assign) else [n.target]
+                for t in tgts:
+                    for tt in ast.walk(t):
+                        if isinstance(tt, (ast.Attribute, ast.Subscript)) and isinstance(getattr(tt, "ctx", None), ast.Store) and is_self_field(tt):
+                            if not guarded:
+                                found.append((relpath, n.lineno, "store to " + ast.unparse(tt)))
+            elif isinstance(n, ast.Call):
+                f = n.func
+                if isinstance(f, ast.Attribute) and f.attr in MUTATING_METHODS and is_self_field(f.value):
+                    if not guarded:
+                        found.append((relpath, n.lineno, "mutating call " + ast.unparse(f)))
+                if isinstance(f, ast.Name) and f.id in ("setattr", "delattr"):
+                    if not guarded:
+                        found.append((relpath, n.lineno, ast.unparse(n)[:60]))
+                if isinstance(f, ast.Attribute) and isinstance(f.value, ast.Name) and f.value.id == "self" and cls and not guarded:
+                    m = registry.resolve_method(cls, f.attr)
+                    if m is not None:
+                        # a nested call passes its own store_states argument; the default (False) applies when omitted
+                        found.extend(effect_scan(m[0], cls, m[2], guard_name, registry, seen))
+    visit(fnode.body, False)
+    return found
+
+
 def verify_function(info: ContractInfo) -> FunctionResult:
     """symbolically execute the real function body and collect obligations"""
     import hashlib
@@ -129,6 +202,16 @@ def verify_function(info: ContractInfo) -> FunctionResult:
     facts = Facts()
     st = State({}, [], facts)
     try:
+        pure_guard0 = getattr(info.cls, "pure_unless", None)
+        if pure_guard0 is not None and getattr(info.cls, "frame_only", False):
+            hits = effect_scan(info.relpath, cls, fnode, pure_guard0, REGISTRY)
+            ob = Obligation(f"{ctx.fname}/frame[modifies nothing unless {pure_guard0}]", "frame", [], z3.BoolVal(not hits),
+                            f"{info.relpath}:{fnode.lineno}", {"stores_outside_guard": [f"{r}:{l}: {d}" for r, l, d in hits]})
+            ob.facts = facts
+            res.obligations = [ob]
+            res.paths = 1
+            res.gen_time = time.time() - t0
+            return res
         names = [a.arg for a in fnode.args.args]
         defaults = fnode.args.defaults
         for n in names:
@@ -170,6 +253,18 @@ def verify_function(info: ContractInfo) -> FunctionResult:
                             f"{info.relpath}:{fnode.lineno}", {"found": got})
             ob.facts = facts
             ctx.obligations.append(ob)
+        pure_guard = getattr(info.cls, "pure_unless", None)
+        if pure_guard is not None:
+            hits = effect_scan(info.relpath, cls, fnode, pure_guard, REGISTRY)
+            ob = Obligation(f"{ctx.fname}/frame[modifies nothing unless {pure_guard}]", "frame", [], z3.BoolVal(not hits),
+                            f"{info.relpath}:{fnode.lineno}", {"stores_outside_guard": [f"{r}:{l}: {d}" for r, l, d in hits]})
+            ob.facts = facts
+            ctx.obligations.append(ob)
+            if getattr(info.cls, "frame_only", False):
+                res.obligations = ctx.obligations
+                res.paths = 1
+                res.gen_time = time.time() - t0
+                return res
         outs = ex.exec_block(fnode.body, st)
         raises = info.clauses("raises_")
         ens = info.clause("ensures")
